@@ -7,7 +7,7 @@
  R01.5 checked_jump_target compares the target against 0 and len before it is used as pc
 """
 import json, os, re, sys, collections
-import lib, panic_edges
+import lib, panic_edges, common
 
 PKGS = ("rscel", "rscel-to-sql")
 
@@ -429,85 +429,7 @@ def run(chk, tier):
     # ---- R01.6: a parser built while parsing inherits the depth counter
     chk.rule("R01.6", "every CelCompiler value created inside a function of the guarded parser cycle receives the creator's nesting counter "
                       "(field write `new.nesting = self.nesting`) before any method is called on it: nesting through format-string segments stays under the one limit")
-    cc_adt = F.adts.get("rscel::compiler::compiler::CelCompiler")
-    nest_idx = None
-    if cc_adt:
-        # the depth counter is the field of the parser that the guard (enter_nested) writes - whatever it is called
-        en_b = F.body(GUARD_PRIMS[0])
-        written = set()
-        for i_, st_ in en_b.stmts():
-            pl_ = st_.get("place", {})
-            if st_.get("k") == "assign" and pl_.get("l") == 1 and pl_.get("p") and pl_["p"][0] == "deref" and len(pl_["p"]) == 2 and isinstance(pl_["p"][1], dict) and "f" in pl_["p"][1]:
-                written.add(pl_["p"][1]["f"])
-        if len(written) == 1:
-            nest_idx = written.pop()
-    if nest_idx is None:
-        chk.bad("R01.6", "anchor|CelCompiler.nesting", "the guard (enter_nested) no longer keeps its count in exactly one field of the parser: the depth guard's state is gone", "rscel/src/compiler/compiler.rs")
-    n_created = 0
-    parser_bodies = [b for b in F.bodies.values() if b.path.startswith("rscel::compiler::compiler::CelCompiler::<'l>::parse_") or "::CelCompiler::<'l>::parse_" in b.path]
-    for b in parser_bodies:
-        if nest_idx is None:
-            break
-        for blk, t in b.calls():
-            dest = t.get("dest") or t.get("destination") or {}
-            dl = dest.get("l") if isinstance(dest, dict) else None
-            if dl is None or dest.get("p"):
-                continue
-            ty = b.local_ty(dl) or ""
-            if not re.match(r"^rscel::compiler::compiler::CelCompiler<", ty):
-                continue
-            n_created += 1
-            key = "%s|%s" % (lib.short(b.path), lib.short(lib.callee_of(t)[1] or "?"))
-            # field writes new.nesting = <copy of (*self).nesting>
-            inherit_blocks = []
-            for i, st in b.stmts():
-                if st.get("k") != "assign":
-                    continue
-                pl = st["place"]
-                if pl.get("l") == dl and pl.get("p") == [{"f": nest_idx}]:
-                    src = st["rv"].get("op", {}) if st["rv"].get("k") == "use" else {}
-                    src = src.get("move") or src.get("copy") or {}
-                    # follow one temporary
-                    seen = 0
-                    while src and not src.get("p") and seen < 4:
-                        seen += 1
-                        defs = [s2 for _, s2 in b.stmts() if s2.get("k") == "assign" and s2["place"] == {"l": src.get("l")}]
-                        if len(defs) != 1 or defs[0]["rv"].get("k") != "use":
-                            break
-                        o2 = defs[0]["rv"]["op"]
-                        src = o2.get("move") or o2.get("copy") or {}
-                    if src.get("l") == 1 and src.get("p") == ["deref", {"f": nest_idx}]:
-                        inherit_blocks.append(i)
-            # every call that takes a reference to the new parser must be dominated by (or sit in the same block after) such a write
-            users = []
-            for i, st in b.stmts():
-                if st.get("k") == "assign" and st["rv"].get("k") == "ref" and st["rv"]["place"].get("l") == dl:
-                    users.append(i)
-            bad_users = [u for u in users if not any(g == u or b.dominates(g, u) for g in inherit_blocks)]
-            def from_self_nesting(op):
-                src = (op.get("move") or op.get("copy") or {}) if isinstance(op, dict) else {}
-                for _ in range(4):
-                    if src.get("l") == 1 and src.get("p") == ["deref", {"f": nest_idx}]:
-                        return True
-                    if not src or src.get("p"):
-                        return False
-                    defs = [s2 for _, s2 in b.stmts() if s2.get("k") == "assign" and s2["place"] == {"l": src.get("l")}]
-                    if len(defs) != 1 or defs[0]["rv"].get("k") != "use":
-                        return False
-                    o2 = defs[0]["rv"]["op"]
-                    src = o2.get("move") or o2.get("copy") or {}
-                return False
-            if any(from_self_nesting(a) for a in t.get("args", [])):
-                chk.ok("R01.6", key, "the creator's counter is passed to the constructor")
-            elif not users:
-                chk.ok("R01.6", key, "created but never used")
-            elif bad_users or not inherit_blocks:
-                chk.bad("R01.6", key, "%s creates a new parser (its nesting counter starts at 0) and uses it without first copying its own counter into it: "
-                                      "each level of that construct gets a fresh nesting budget, so recursion through it is unbounded" % lib.short(b.path),
-                        "%s:%d" % (t["file"], t["line"]))
-            else:
-                chk.ok("R01.6", key, "nesting inherited before first use")
-    chk.floor("R01.6", "parsers created inside parse functions (format-string segments)", n_created, 1)
+    common.parser_nesting_inherited(chk, F, "R01.6", GUARD_PRIMS[0], "each level of that construct gets a fresh nesting budget, so recursion through it is unbounded")
 
     # ---- R01.7 stack budget of the guarded recursions (thorough tier: needs a code-generating build for the frame sizes)
     if tier == "thorough" or os.environ.get("VERIF_STACK"):
